@@ -1,5 +1,7 @@
 import RallyModel.TrackSpec
 import RallyProofs.TrackSpec
+import RallyModel.TrackTemplate
+import RallyProofs.TrackTemplate
 import RallyGen.OpTypes
 import RallyGen.SchemaRules
 /-!
@@ -714,6 +716,85 @@ theorem model_constants_agree :
        ("track".toList, [])] := by
   decide +kernel
 
+/-! ## 3b. The template layer: assembled source and visibility of track parameters -/
+section Template
+open TrackTemplate
+
+/-- **assembled_source_is_expansion**: for every track directory `fs`, every main file and every nesting bound, what
+    `TemplateSource.load_template_from_file` assembles is the main text with every `rally.collect` call replaced by the
+    files its pattern selects relative to the directory of the fragment that contains the call, joined with ",\n",
+    recursively (`expand`).  The model of the code (`replaceIncludes`) keeps the replacement dict keyed by the pattern
+    *text*; the theorem holds because that dict lives for one call, i.e. one base directory. -/
+theorem assembled_source_is_expansion (fs : FS) (fuel : Nat) (main : Fragment) :
+    assemble fs fuel main = expand fs fuel [] main :=
+  replaceIncludes_eq_expand fs fuel [] main
+
+theorem concatOpt_singleton (v : Option TrackTemplate.Str) : concatOpt [v] = v := by
+  cases v <;> simp [concatOpt]
+
+/-- a collect call is resolved relative to the directory of the fragment it is written in: the same pattern text
+    under two base directories selects each directory's own files -/
+theorem collect_relative_to_including_fragment (fs : FS) (fuel : Nat) (base : Path) (p : TrackTemplate.Str) :
+    replaceIncludes fs (fuel + 1) base [Piece.collect p] =
+      expand fs fuel (base ++ (splitSlash p).dropLast) (joinFragments
+        ((fs.filter (fun f => decide (f.dir = base ++ (splitSlash p).dropLast) &&
+          nameMatches (fileGlobOf p) f.name)).map (·.content))) := by
+  rw [replaceIncludes_eq_expand]
+  simp only [expand, List.map_cons, List.map_nil, concatOpt_singleton, readGlobFiles, filesOf, dirOf]
+  rfl
+
+/-- `render_template` passes nothing to `render()`: every place sees exactly the environment globals -/
+theorem sees_renderEnv (user internal builtins : Vars) (sc : Scope) (n : TrackTemplate.Str) :
+    sees (renderEnv user internal builtins) sc n = lookupVar (renderEnv user internal builtins).globals n := by
+  have hc : (renderEnv user internal builtins).context = [] := rfl
+  unfold sees
+  cases sc <;> simp only [hc, lookupVar, List.find?_nil, Option.map_none]
+
+theorem lookupVar_globals (user internal builtins : Vars) (n : TrackTemplate.Str) (hi : lookupVar internal n = none) :
+    lookupVar (renderEnv user internal builtins).globals n =
+      match lookupVar user n with
+      | some v => some v
+      | none => lookupVar builtins n := by
+  have hf : lookupVar (user.filter (fun kv => decide (lookupVar internal kv.1 = none))) n = lookupVar user n :=
+    lookupVar_filter_of_ne (by intro kv _ hk; rw [hk, hi]; simp)
+  simp only [renderEnv]
+  rw [lookupVar_append, lookupVar_append, hi]
+  simp only
+  rw [hf]
+  cases lookupVar user n <;> rfl
+
+/-- **user_param_resolves_everywhere**: a user-supplied track parameter that is not one of Rally's internal variables
+    resolves to the user's value at every kind of place a reference can occur in — the track file, included files,
+    macros imported with or without context, parts included by the `rally.collect` macro, index bodies — even when it is
+    named like one of Jinja's built-in globals -/
+theorem user_param_resolves_everywhere (user internal builtins : Vars) (sc : Scope) (n v d : TrackTemplate.Str)
+    (hu : lookupVar user n = some v) (hi : lookupVar internal n = none) :
+    renderRef user internal builtins sc n d = v := by
+  unfold renderRef
+  rw [sees_renderEnv, lookupVar_globals _ _ _ _ hi, hu]
+  rfl
+
+/-- Rally's internal variables cannot be overridden by a user parameter, wherever the reference occurs -/
+theorem internal_variable_wins (user internal builtins : Vars) (sc : Scope) (n v d : TrackTemplate.Str)
+    (hi : lookupVar internal n = some v) : renderRef user internal builtins sc n d = v := by
+  have hg : lookupVar (renderEnv user internal builtins).globals n = some v := by
+    simp only [renderEnv]
+    rw [lookupVar_append, lookupVar_append, hi]
+  unfold renderRef
+  rw [sees_renderEnv, hg]
+  rfl
+
+/-- a parameter nobody supplies (and that is no built-in name) falls back to the default written in the template -/
+theorem unsupplied_param_defaults (user internal builtins : Vars) (sc : Scope) (n d : TrackTemplate.Str)
+    (hu : lookupVar user n = none) (hi : lookupVar internal n = none) (hb : lookupVar builtins n = none) :
+    renderRef user internal builtins sc n d = d := by
+  unfold renderRef
+  rw [sees_renderEnv, lookupVar_globals _ _ _ _ hi, hu]
+  simp only [hb]
+  rfl
+
+end Template
+
 /-- the `type` declarations of the schema file the model relies on: every position the typed view `Spec` reads
     (a `Nat` field relies on `integer`, a `Str` field on `string`, …); template families, `cluster-settings` and the
     pass-through parameters of operations are not interpreted by the model -/
@@ -1043,6 +1124,40 @@ example : load tblS none ["bulk_size".toList] ["bulk_size".toList, "y".toList] g
 example : 0 < RallyGen.OpTypes.table.length ∧ RallyGen.OpTypes.table.any (·.admin) = true ∧
     RallyGen.OpTypes.table.any (fun r => !r.admin) = true ∧
     fromHyphenated RallyGen.OpTypes.table "no-such-operation-type".toList = none := by decide +kernel
+
+
+/-! the template layer -/
+section TemplateExamples
+open TrackTemplate
+
+/-- two challenge directories whose `challenge.json` both say `tasks/*.json` -/
+def fsNested : FS :=
+  [ ⟨["challenges".toList, "a".toList], "challenge.json".toList, [.text "A[".toList, .collect "tasks/*.json".toList, .text "]".toList]⟩,
+    ⟨["challenges".toList, "b".toList], "challenge.json".toList, [.text "B[".toList, .collect "tasks/*.json".toList, .text "]".toList]⟩,
+    ⟨["challenges".toList, "a".toList, "tasks".toList], "t1.json".toList, [.text "a1".toList]⟩,
+    ⟨["challenges".toList, "a".toList, "tasks".toList], "t2.json".toList, [.text "a2".toList]⟩,
+    ⟨["challenges".toList, "a".toList, "tasks".toList], ".hidden.json".toList, [.text "no".toList]⟩,
+    ⟨["challenges".toList, "b".toList, "tasks".toList], "t1.json".toList, [.text "b1".toList]⟩ ]
+
+/-- the same pattern text is answered from each directory's own files -/
+example : assemble fsNested 3 [.collect "challenges/a/*.json".toList, .text ";".toList, .collect "challenges/b/*.json".toList] =
+    some "A[a1,\na2];B[b1]".toList := by decide +kernel
+example : assemble fsNested 1 [.collect "challenges/a/*.json".toList] = none := by decide +kernel
+
+example : renderRef [("bulk_size".toList, "250".toList)] [("build_flavor".toList, "default".toList)] []
+    .collectedPlain "bulk_size".toList "5000".toList = "250".toList :=
+  user_param_resolves_everywhere _ _ _ _ _ _ _ (by decide +kernel) (by decide +kernel)
+example : renderRef [("range".toList, "7".toList)] [] [("range".toList, "<class 'range'>".toList)]
+    .importedPlain "range".toList "d".toList = "7".toList :=
+  user_param_resolves_everywhere _ _ _ _ _ _ _ (by decide +kernel) (by decide +kernel)
+example : renderRef [("build_flavor".toList, "x".toList)] [("build_flavor".toList, "default".toList)] []
+    .importedPlain "build_flavor".toList "d".toList = "default".toList :=
+  internal_variable_wins _ _ _ _ _ _ _ (by decide +kernel)
+example : renderRef [("other".toList, "x".toList)] [("build_flavor".toList, "default".toList)] []
+    .main "bulk_size".toList "5000".toList = "5000".toList :=
+  unsupplied_param_defaults _ _ _ _ _ _ (by decide +kernel) (by decide +kernel) (by decide +kernel)
+
+end TemplateExamples
 
 end Examples
 
